@@ -99,6 +99,11 @@ class IsInternalPath(FnSpec):
         pt = p.t if isinstance(p, SStr) else z3.StringVal(p)
         return SBool(internal_code(pt))
 
+    def native_plan(self, m, o):
+        if not isinstance(m.get("path"), str):
+            return None
+        return {"fn": "is_internal_path", "args": [m["path"]]}
+
 
 def node_obj(cx, cls="MetadorGroup", name="self"):
     o = SObj(cls, name=name)
